@@ -308,7 +308,39 @@ const SNIPPETS: &[&str] = &[
 /// Apply one random textual edit. Returns (new text, kind tag).
 pub fn mutate(rng: &mut Rng, text: &str) -> (String, &'static str) {
     let mut s = text.to_string();
-    match rng.below(9) {
+    match rng.below(11) {
+        9 | 10 => {
+            // rename something the module DECLARES (a type, a constructor, a function, a
+            // constant) wherever it occurs in the file: what an editor's rename does, and what
+            // makes an answer computed earlier wrong without moving anything
+            let idents = ident_spans(&s);
+            let mut decls: Vec<String> = Vec::new();
+            for (k, (a, b)) in idents.iter().enumerate() {
+                let w = &s[*a..*b];
+                let after_kw = k > 0 && matches!(&s[idents[k - 1].0..idents[k - 1].1], "type" | "fn" | "const");
+                let line_start = s[..*a].rfind('\n').map_or(0, |i| i + 1);
+                let variant = w.chars().next().map_or(false, |c| c.is_ascii_uppercase()) && s[line_start..*a].trim().is_empty() && *a > line_start;
+                if (after_kw || variant) && !decls.iter().any(|d| d == w) {
+                    decls.push(w.to_string());
+                }
+            }
+            if decls.is_empty() {
+                return (s, "edit.none");
+            }
+            let old = rng.pick(&decls).clone();
+            let new = if old.chars().next().map_or(false, |c| c.is_ascii_uppercase()) { format!("{old}R") } else { format!("{old}_r") };
+            let mut out = String::new();
+            let mut last = 0;
+            for (a, b) in idents {
+                if s[a..b] == old {
+                    out += &s[last..a];
+                    out += &new;
+                    last = b;
+                }
+            }
+            out += &s[last..];
+            (out, "edit.rename_decl")
+        }
         0 => {
             let i = char_floor(&s, rng.below(s.len() + 1));
             s.insert_str(i, *rng.pick(SNIPPETS));
